@@ -30,6 +30,17 @@ func replay(path string) int {
 		fmt.Println("no replayer for", f.Property)
 		return 2
 	}
+	var ret struct{ Retained bool }
+	if json.Unmarshal(f.Replay, &ret) == nil && ret.Retained {
+		bad, detail := retainReplay(f.Property)
+		fmt.Println(detail)
+		if bad {
+			fmt.Printf("VIOLATION property=%s replay=%s\n", f.Property, path)
+			return 1
+		}
+		fmt.Println("replay: property holds on this case")
+		return 0
+	}
 	replayBefore(fn, f.Replay)
 	bad, detail := fn(f.Replay)
 	fmt.Println(detail)
